@@ -323,8 +323,10 @@ class CSSStyleDeclaration(CSS2Properties, css_parser.util.Base2):
 
         def unexpected(expected, seq, token, tokenizer=None):
             # error, find next ; or } to omit upto next property
-            ignored = self._tokenvalue(token) + self._valuestr(
-                self._tokensupto2(tokenizer,
+            # the unexpected token itself may open a (, [ or { which must be
+            # closed before the next ; ends the ignored part
+            ignored = self._valuestr(
+                self._tokensupto2(tokenizer, starttoken=token,
                                   propertyvalueendonly=True))
             self._log.error('CSSStyleDeclaration: Unexpected token, ignoring '
                             'upto %r.' % ignored, token)
